@@ -130,9 +130,11 @@ package seq
 
 //@ type-contract lazy () (r)
 //@   ensures W == lazy_w(self, old(W)) && r == lazy_ret(self, old(W))
+//@   ensures[non-nil] r != nil      -- user precondition: a thunk returns a Seq, not nil
 //@   modifies W
 //@ type-contract lazyRecv (x) (r)
 //@   ensures W == lazyr_w(self, x, old(W)) && r == lazyr_ret(self, x, old(W))
+//@   ensures[non-nil] r != nil
 //@   modifies W
 //@ type-contract func()bool () (r)
 //@   ensures W == cond_w(self, old(W)) && r == cond_ret(self, old(W))
@@ -166,6 +168,7 @@ package seq
 // ---------------------------------------------------------------- combinators (C08, C02, C14, C17, C18)
 
 //@ func mkNextRecv(f, c, k) (n)
+//@   requires f != nil
 //@   requires c != nil && k != nil && Co(k) == c
 //@   ensures[attrs] n != nil && nres(n) == f && nst(n) == stackOf(k) && Co(n) == c
 //@   ensures[pure] W == old(W)
@@ -173,6 +176,7 @@ package seq
 //@   ghost nres(self) == f && nst(self) == stackOf(k) && Co(self) == c
 
 //@ func mkNext(f, c, k) (n)
+//@   requires f != nil
 //@   requires c != nil && k != nil && Co(k) == c
 //@   ensures[attrs] n != nil && nres(n) == wrapL(f) && nst(n) == stackOf(k) && Co(n) == c
 //@   ensures[pure] W == old(W)
@@ -185,6 +189,7 @@ package seq
 //@   ensures[pure] W == old(W)
 
 //@ func Start(seq) (it)
+//@   requires seq != nil
 //@   ensures[fresh] fresh(it)
 //@   ensures[init] !as(ptr(it), generator).started && as(ptr(it), generator).current == zero_TP_V
 //@        && as(ptr(it), generator).next != nil
@@ -201,18 +206,21 @@ package seq
 //@   captured-inv it != nil
 
 //@ func Bind(v, f) (s)
+//@   requires f != nil      -- user precondition (a nil thunk panics in the advance that resumes it)
 //@   ensures[shape] s != nil && shape(s) == ShBind(v, f)
 //@   ensures[pure] W == old(W)
 //@ closure Bind#0 (c, k)
 //@   ghost shape(self) == ShBind(v, f)
 
 //@ func BindRecv(v, f) (s)
+//@   requires f != nil
 //@   ensures[shape] s != nil && shape(s) == ShBindR(v, f)
 //@   ensures[pure] W == old(W)
 //@ closure BindRecv#0 (c, k)
 //@   ghost shape(self) == ShBindR(v, f)
 
 //@ func For(cond, post, body) (s)
+//@   requires body != nil
 //@   ensures[shape] s != nil && shape(s) == ShFor(cond, post, body)
 //@   ensures[pure] W == old(W)
 //@ closure For#0 (c, k)
@@ -225,19 +233,23 @@ package seq
 //@   ghost stackOf(self) == FLoop(cond, post, body, stackOf(k)) && Co(self) == c
 
 //@ func While(cond, body) (s)
+//@   requires body != nil
 //@   ensures[shape] s != nil && shape(s) == ShFor(cond, nil, body)
 //@   ensures[pure] W == old(W)
 //@ func Loop(body) (s)
+//@   requires body != nil
 //@   ensures[shape] s != nil && shape(s) == ShFor(nil, nil, body)
 //@   ensures[pure] W == old(W)
 
 //@ func Delay(f) (s)
+//@   requires f != nil
 //@   ensures[shape] s != nil && shape(s) == ShDelay(f)
 //@   ensures[pure] W == old(W)
 //@ closure Delay#0 (c, k)
 //@   ghost shape(self) == ShDelay(f)
 
 //@ func Combine(s1, s2) (s)
+//@   requires s1 != nil && s2 != nil
 //@   ensures[shape] s != nil && shape(s) == ShCombine(s1, s2)
 //@   ensures[pure] W == old(W)
 //@ closure Combine#0 (c, k)
